@@ -9,7 +9,8 @@ C13 model: hand transliteration of the sequence code of gpython, bug-for-bug
   py/string.go    M__getitem__, slice (at code-point granularity), M__add__, M__mul__, comparisons, M__contains__
   py/range.go     RangeNew, M__getitem__, computeItem, computeRangeLength, computeNegativeIndex,
                   computeRangeSlice, RangeIterator.M__next__, M__eq__, M__ne__
-  py/bytes.go     M__add__, M__iadd__, comparisons (no len / indexing / iteration / repetition exist)
+  py/bytes.go     M__add__, M__iadd__, comparisons, M__len__, M__getitem__ (shape of Tuple.M__getitem__), M__iter__, M__mul__
+  py/tuple.go     seqOrder + M__lt__ … M__ge__ of Tuple and List (lexicographic ordering)
   py/sequence.go  SequenceTuple, Iterate, SequenceContains;  py/iterator.go Iterator.M__next__
   py/arithmetic.go  Add, IAdd, Mul, Eq .. Ge dispatch for the five sequence types
 
@@ -368,7 +369,11 @@ def getItem (o : Obj) (k : Key) : Except Err Obj :=
     match ← rangeGetItem r k with
     | .inl x => pure (.int x)
     | .inr r' => pure (.range r')
-  | _ => throw .type     -- bytes: "object is not subscriptable"
+  | .bytes t => do        -- Bytes.M__getitem__ is Tuple.M__getitem__ on bytes (sub-slice for step 1)
+    match ← tupleGetItem t k with
+    | .inl x => pure (.int x)
+    | .inr xs => pure (.bytes xs)
+  | _ => throw .type
 
 /-- `Iterate` / `Iter`+`Next` over an object: its items, or TypeError -/
 def iterate (o : Obj) : Except Err (List Int × Bool) :=
@@ -376,6 +381,7 @@ def iterate (o : Obj) : Except Err (List Int × Bool) :=
   | .list xs => pure (xs, false)
   | .tuple xs => pure (xs, false)
   | .str xs => pure (xs, false)
+  | .bytes xs => pure (xs, false)     -- Iterate's fast path; Iter(bytes) = NewIterator over M__getitem__
   | .range r => pure (rangeDrain r 0 drainCap)
   | _ => throw .type
 
@@ -432,12 +438,13 @@ def mul (a : Obj) (n : Idx) : Except Err Obj :=
     | .list x => .list <$> seqMul x b
     | .tuple x => .tuple <$> seqMul x b
     | .str x => pure (.str (strMul x b))
+    | .bytes x => .bytes <$> seqMul x b
     | _ => throw .type
 
 /-- `py.Len` -/
 def len (a : Obj) : Except Err Obj :=
   match a with
-  | .list x | .tuple x | .str x => pure (.int x.length)
+  | .list x | .tuple x | .str x | .bytes x => pure (.int x.length)
   | .range r => pure (.int r.length)
   | _ => throw .type
 
@@ -485,6 +492,17 @@ def cmpOrd (op : CmpOp) (x y : List Int) : Bool :=
   | .gt => lexLt y x
   | .ge => !lexLt x y
 
+/-- `py.Lt` … `py.Ge` on two item objects (here: ints) -/
+def intCmp (op : CmpOp) (x y : Int) : Bool :=
+  match op with
+  | .lt => x < y | .le => x ≤ y | .eq => x == y | .ne => x != y | .gt => x > y | .ge => x ≥ y
+
+/-- `seqOrder` (py/tuple.go): `for i := 0; i < len(a) && i < len(b); i++`: the first pair of items that
+are not `Eq` decides by `cmp`, otherwise the lengths do -/
+def seqOrder (op : CmpOp) : List Int → List Int → Bool
+  | x :: xs, y :: ys => if x == y then seqOrder op xs ys else intCmp op x y
+  | xs, ys => intCmp op xs.length ys.length
+
 /-- `py.Lt` … `py.Ge`, `py.Eq`, `py.Ne` on two sequence objects -/
 def cmp (op : CmpOp) (a b : Obj) : Except Err Obj :=
   match a, b with
@@ -494,7 +512,7 @@ def cmp (op : CmpOp) (a b : Obj) : Except Err Obj :=
     match op with
     | .eq => pure (.bool (x == y))     -- length test, then element-wise Eq
     | .ne => pure (.bool (x != y))
-    | _ => throw .type                 -- no M__lt__ … M__ge__ on list / tuple
+    | op => pure (.bool (seqOrder op x y))
   | .range x, .range y =>
     match op with
     | .eq => pure (.bool (rangeEq x y))
